@@ -604,6 +604,22 @@ def loop_programs(rng, n, nested=True, side=False, force=None):
             loop["out"] = "L_x"
             loop["op"] = "replay"
             kind = "replay"
+        elif nested and i % 8 == 1:
+            # nested loop whose inner run ends by its CONDITION after a number of rounds that the
+            # thresholds spread over 1..bound (state grows by a fixed amount per round): every run of the
+            # inner loop must count its rounds from zero and start from its initial state
+            nodes[0]["hi"] = rng.choice([3, 6, 15])
+            inner = {"id": "L_I", "op": "replay", "rounds": rng.choice([3, 4, 5]), "init": 0,
+                     "lfold": "sum", "gfold": "sum", "cond": rng.choice(["lt10", "lt30", "lt100"]),
+                     "body": [{"id": "L_I_b0", "op": "map", "f": "mod7", "in": ["$in"]}], "out": "L_I_b0",
+                     "in": ["L_o"]}
+            loop["body"] = [{"id": "L_o", "op": "map", "f": "id", "in": ["$in"]}, inner,
+                            {"id": "L_x", "op": "map", "f": "id", "in": ["L_I.state"]}]
+            loop["out"] = "L_x"
+            loop["op"] = "replay"
+            loop["rounds"] = rng.choice([2, 3])
+            loop["cond"] = "always"
+            kind = "replay"
         nodes.append(loop)
         nodes.append({"id": "ks", "op": "sink", "kind": "collect_vec", "in": ["L.state"]})
         if kind == "iterate":
